@@ -9,7 +9,9 @@ arbitrary `Prog` trees), every list of roots in every order, every fuel ≥ `#ke
 The model is tied to the real engine on every run (driver `drv_engine cyc`).
 
 The incremental part of the property ("when an input change removes or creates a cycle the results
-follow") is false for the code as it is: see the witnesses at the end and `known_findings.d/C06.json`.
+follow") was false for the code as found (findings F2, F3, F16, F30, F31, F32, F33, all repaired upstream): see the
+historical witnesses and the `…_fixed_…` theorems in Props/C06Inc.lean; for the code as it is now it is decided by the
+correspondence and the from-scratch oracle, not by a theorem.
 -/
 import QbiceVerif.Lemmas.CycleFinal
 namespace Qbice.Cycle
